@@ -86,7 +86,7 @@ def run(ctx):
         nd = ctx.rng.choice([1, 2])
         N = ctx.rng.choice([1, 2, 3, 4, 6, 10])
         shape = (N,) if nd == 1 else (N, ctx.rng.randrange(1, 4))
-        vals = ctx.rng.choice([[0, 1], [0, 1, 2], [-1, 0, 3], [5, 7, 9, 11, 13, 2]])
+        vals = ctx.rng.choice([[0, 1], [0, 1], [0, 0, 1], [0, 1, 1, 1], [0, 1, 2], [-1, 0, 3], [5, 7, 9, 11, 13, 2]])
         a = np.array(ctx.rng.choices(vals, k=int(np.prod(shape))), dtype=np.int64).reshape(shape)
         # the library also chooses when a value mapping (injective or many-to-one) and/or the value counts are supplied
         mkind = ctx.rng.choice(["none", "none", "injective", "many_to_one", "many_to_one"])
@@ -108,7 +108,15 @@ def run(ctx):
             kw["mapping"] = dict(mapping)
         if counts is not None:
             kw["counts"] = dict(counts)
-        ix = iindex.from_array(a, **kw)
+        stored, dt = I.storage_variant(ctx.rng, a) if ctx.rng.random() < 0.5 else (a, "int64")
+        desc["dtype"] = dt
+        ctx.hit("storage:" + dt)
+        try:
+            ix = iindex.from_array(stored, **kw)
+        except Exception as e:
+            ctx.case(desc)
+            ctx.oracle_fail("from_array of a %s array raised %s: %s" % (dt, type(e).__name__, str(e)[:80]), desc, cls="C15-from-array-raises")
+            continue
         mapped = a if mapping is None else np.vectorize(lambda x: mapping[int(x)], otypes=[np.int64])(a)
         ctx.case(desc)
         ctx.hit("from_array/" + mkind + ("/counts" if counts is not None else ""))
@@ -121,6 +129,28 @@ def run(ctx):
         if mapping is None and counts is None:
             reqs.append({"op": "iidx", "m": "from_array", "arr": {"shape": list(shape), "data": a.reshape(-1).tolist()}})
             pend.append((desc, ("common", int(ix.common))))
+    # exhaustively: every boolean array (0/1 indicators stored as bool) of a few small shapes, no options
+    import itertools
+    for shape in ((4,), (2, 2), (3, 2), (2, 3)):
+        for bits in itertools.product((False, True), repeat=int(np.prod(shape))):
+            a = np.array(bits, dtype=bool).reshape(shape)
+            desc = {"from_array": a.astype(int).tolist(), "dtype": "bool", "mapping": None, "counts": False}
+            ctx.evaluations += 1
+            ctx.hit("from_array/bool_exhaustive")
+            try:
+                ix = iindex.from_array(a)
+            except Exception as e:
+                ctx.oracle_fail("from_array of a bool array raised %s: %s" % (type(e).__name__, str(e)[:80]), desc, cls="C15-from-array-raises")
+                continue
+            ai = a.astype(np.int64)
+            v, c = np.unique(ai, return_counts=True)
+            cc = int(np.count_nonzero(ai == ix.common))
+            if cc != int(c.max()):
+                ctx.oracle_fail("from_array chose common %s (%d cells) but %s occurs %d times" % (
+                    ix.common, cc, int(v[int(np.argmax(c))]), int(c.max())), desc, cls="C15-common-not-most-frequent")
+            elif not np.array_equal(I.dense_of(ix), ai):
+                ctx.oracle_fail("from_array of a bool array does not hold its content", desc, cls="C15-common-not-most-frequent")
+    ctx.exhaustive.append("from_array without options on every boolean array of shape (4,), (2,2), (3,2), (2,3)")
     # equality across histories
     for _ in range(ctx.n(120)):
         steps = hist.run_history(ctx.rng, ctx.rng.randrange(0, 6), ndim=ctx.rng.choice([1, 2]),
